@@ -504,7 +504,7 @@ theorem readOp_le (fuel : Nat) (p : P) (hf : 2 * p.mu + 4 ≤ fuel) : Le (readOp
           simp only
           exact (readSelectionSet_spec cm hnum fuel p3 (by have := l3.2; omega)).1.trans l3
 
-theorem readFragmentDef_le (fuel : Nat) (p : P) (hf : 2 * p.mu + 4 ≤ fuel) : Le (readFragmentDef cm fuel p).2 p := by
+theorem readFragmentDef_le (fuel : Nat) (p : P) (hf : 2 * p.mu + 4 ≤ fuel) : Le (readFragmentDef cm cfg fuel p).2 p := by
   unfold readFragmentDef
   rcases h0 : skipSp cm p with ⟨r0, p0⟩
   have l0 : Le p0 p := by have := skipSp_le cm p; rwa [h0] at this
@@ -648,8 +648,8 @@ theorem mainLoop_spec : ∀ (n : Nat) (p : P) (ops : List (List UInt8)), p.oof =
                 have : tok = kw_fragment := by simpa using hfr
                 rw [this]; decide
               have lt1 : Lt p1 p := (tok_lt cm p0 tok false p1 ht hne).trans_le l0
-              have lf := readFragmentDef_le cm hnum p1.vfuel p1 (by have := vfuel_ok p1; omega)
-              rcases hr : readFragmentDef cm p1.vfuel p1 with ⟨⟨⟨name, line, col, hasSels⟩, e⟩, p2⟩
+              have lf := readFragmentDef_le cm cfg hnum p1.vfuel p1 (by have := vfuel_ok p1; omega)
+              rcases hr : readFragmentDef cm cfg p1.vfuel p1 with ⟨⟨⟨name, line, col, hasSels⟩, e⟩, p2⟩
               rw [hr] at lf
               have lt2 : Lt p2 p := lf.trans_lt lt1
               have ho2 : p2.oof = false := by rw [lt2.1]; exact ho
